@@ -20,6 +20,7 @@ import (
 	"runtime"
 	"strings"
 	"sync"
+	"sync/atomic"
 	"testing"
 	"time"
 )
@@ -115,6 +116,21 @@ func c18Fill(e *c18Env, u *vfUnit) {
 	} else {
 		e.store = vfNewStore()
 		e.store.Mkdir("/sub")
+		var served atomic.Int64
+		e.store.Delay = func(write bool, off int64) {
+			if write {
+				return
+			}
+			if off != c18StallOff {
+				served.Add(1)
+				return
+			}
+			// (bounded in logical steps; the other reads do not depend on this one)
+			start := served.Load()
+			for spin := 0; spin < 400000 && served.Load() < start+300; spin++ {
+				runtime.Gosched()
+			}
+		}
 	}
 	e.files = nil
 	for i, sz := range e.sizes {
@@ -140,6 +156,9 @@ type c18Phase []vfPkt
 
 // c18Program builds phases; handle strings are predictable ("1".."n") because opens
 // are done one per phase-0 slot in order and all succeed.
+// c18StallOff: a READ at this offset of the store's files waits until many other reads have been served
+const c18StallOff = 61111
+
 func c18Program(r *vfRand, e *c18Env) []c18Phase {
 	id := uint32(10)
 	next := func() uint32 { id++; return id }
@@ -213,6 +232,16 @@ func c18Program(r *vfRand, e *c18Env) []c18Phase {
 					ph = append(ph, vfPkt{Type: rfStat, ID: next(), Path: filepath.Join(root, "sub")})
 				}
 			}
+		}
+		phases = append(phases, ph)
+	}
+	if e.kind == vfRS {
+		// a head-of-line request that takes long while hundreds of later ones complete behind it: their responses
+		// (and the pages they live in) wait for it; when all are out nothing is in use any more
+		var ph c18Phase
+		ph = append(ph, vfPkt{Type: rfRead, ID: next(), Handle: hfile(6), Off: c18StallOff, Len: 10})
+		for i := 0; i < 330; i++ {
+			ph = append(ph, vfPkt{Type: rfRead, ID: next(), Handle: hfile(6), Off: uint64(i * 7), Len: 100})
 		}
 		phases = append(phases, ph)
 	}
